@@ -51,7 +51,41 @@ impl Family for C06 {
     let g = pipe::GenCfg { nsrc, unary: &unary, multi: pipe::MULTI, trig: pipe::TRIG, news, max_depth: depth };
     let mut next_src = 0;
     // the cause
-    let cause = match rng.below(10) {
+    if rng.below(40) == 0 {
+      // retry over merge: input 0 fails at once; the next attempt's cold input emits inside
+      // subscribe, and from inside that delivery the subscriber makes the failed attempt's sibling
+      // (src1, subscription #0) try to emit
+      let ins: Vec<Json> = (0..3).map(|i| Json::obj(vec![("src", Json::Int(i))])).collect();
+      let merged = Json::obj(vec![("multi", Json::str("merge")), ("ins", Json::Arr(ins))]);
+      let input = Json::obj(vec![("op", Json::str("probe")), ("a", Json::Int(1)), ("in", merged)]);
+      let cause = Json::obj(vec![("op", Json::str(*rng.pick(&["retry", "retry", "retry_when"]))), ("a", Json::Int(*rng.pick(&[0i64, 2, 3]))), ("in", input)]);
+      let p = Json::obj(vec![("op", Json::str("probe")), ("a", Json::Int(0)), ("in", cause)]);
+      let sources = vec![
+        SrcSpec { mode: Mode::Hot, scripts: vec![vec![Step::E(4)], gen_script(rng, 100, 3, true)] },
+        SrcSpec { mode: Mode::Hot, scripts: vec![gen_script(rng, 200, 3, true)] },
+        SrcSpec { mode: Mode::Cold, scripts: vec![vec![], vec![Step::N(300), Step::N(301)]] },
+      ];
+      let mut order = vec![0i64];
+      for _ in 0..rng.below(4) {
+        order.push(rng.below(2) as i64);
+      }
+      let re = vec![Json::obj(vec![("on", Json::str("next")), ("do", Json::Int(1))])];
+      return spec_to_json(p, &sources, &order, vec![("reenter", Json::Arr(re))]);
+    }
+    let shape_amb_unbounded_loser = rng.below(30) == 0;
+    let cause = if shape_amb_unbounded_loser {
+      // amb whose first input signals inside subscribe and stays open (hot source behind start_with),
+      // followed by unbounded synchronous inputs: they lose at once and must be cancelled at their
+      // first signal, although the stream is still open
+      next_src = 1;
+      let first = Json::obj(vec![("op", Json::str("start_with")), ("a", Json::Int(rng.below(4) as i64)), ("in", Json::obj(vec![("src", Json::Int(0))]))]);
+      let mut ins = vec![first];
+      for _ in 0..rng.range(1, 2) {
+        ins.push(Json::obj(vec![("new", Json::str(*rng.pick(&["repeat", "endless_iter"]))), ("a", Json::Int(rng.below(5) as i64))]));
+      }
+      Json::obj(vec![("multi", Json::str("amb")), ("ins", Json::Arr(ins))])
+    } else {
+      match rng.below(10) {
       0..=4 => {
         let op = *rng.pick(CAUSES_UNARY);
         let a = match op {
@@ -76,6 +110,7 @@ impl Family for C06 {
       }
       8 => Json::obj(vec![("op", Json::str("flat_map")), ("a", Json::Int(*rng.pick(&[0i64, 1, 3, 3]))), ("in", pipe::gen_node(rng, &g, depth, &mut next_src))]),
       _ => pipe::gen_node(rng, &g, depth + 1, &mut next_src),
+      }
     };
     let mut p = Json::obj(vec![("op", Json::str("probe")), ("a", Json::Int(0)), ("in", cause)]);
     // downstream context: source-free unary operators
@@ -245,6 +280,57 @@ impl Family for C06 {
             }
           }
         }
+        // a failed attempt under retry / retry_when / on_error_resume_next: everything that was
+        // subscribed on behalf of that attempt - also the siblings of the input that failed - is
+        // released, whether or not a further attempt follows
+        if let (Some(cop), Some(p1)) = (cause.get("op").and_then(|x| x.as_str()), r.probes.get(1)) {
+          let has_input_probe = cause.get("in").map_or(false, |i| i.get("op").and_then(|x| x.as_str()) == Some("probe") && i.i("a") == 1);
+          if has_input_probe && ["retry", "retry_when", "on_error_resume_next"].contains(&cop) {
+            if let Some(f) = p1.events.iter().find(|e| e.sub == 0 && matches!(e.ev, Ev::Error(_))) {
+              let hz = horizon(f.seq);
+              fn under_flat_map(n: &Json, inside: bool, i: usize, hit: &mut bool) {
+                if n.get("src").and_then(|x| x.as_i64()) == Some(i as i64) && inside {
+                  *hit = true;
+                }
+                let fm = inside || n.get("op").and_then(|x| x.as_str()) == Some("flat_map") || n.get("trig").and_then(|x| x.as_str()) == Some("switch_on_next");
+                for k in ["in", "by"] {
+                  if let Some(x) = n.get(k) {
+                    under_flat_map(x, fm, i, hit);
+                  }
+                }
+                for x in n.a("ins") {
+                  under_flat_map(&x, fm, i, hit);
+                }
+              }
+              for i in &below {
+                // instrumented hot sources used once, not resubscribed per item
+                if all_used.iter().filter(|x| *x == i).count() != 1 || spec.sources[*i].mode != Mode::Hot {
+                  continue;
+                }
+                let mut hit = false;
+                under_flat_map(&spec.pipeline, false, *i, &mut hit);
+                if hit {
+                  continue;
+                }
+                let l = r.src_logs[*i].lock().unwrap();
+                // its subscription #0 was made for the attempt that failed
+                if !l.subscriptions.first().map_or(false, |s| s.0 < f.seq) {
+                  continue;
+                }
+                // retry aborts the failed attempt before it subscribes the next one: from that
+                // instant on (no horizon: this is inside the error notification) it is released
+                let resubscribed = if cop == "on_error_resume_next" { None } else { p1.subscribed.get(1).copied() };
+                if let Some(e) = l.emits.iter().find(|e| e.sub == 0 && e.sub_before && (e.seq_start > hz || resubscribed.map_or(false, |r2| e.seq_start > r2))) {
+                  v.push(Violation::new(
+                    "failed-attempt-still-subscribed",
+                    &blame,
+                    format!("pipeline {}: the first attempt under '{}' failed at {}, yet src{} (the subscription made for that attempt) still saw is_subscribed()==true when it tried to emit {} at {}", pshow, cop, f.seq, i, e.step.show(), e.seq_start),
+                  ));
+                }
+              }
+            }
+          }
+        }
         // nothing is delivered after the subscription ended
         if let Some(end) = ends.iter().filter(|e| e.3).map(|e| e.1).min() {
           for e in &evs {
@@ -322,6 +408,17 @@ impl Family for C06 {
         if uses_endless && (r.rec.events().iter().any(|e| e.ev.is_terminal()) || r.probes.first().map_or(false, |p| p.events.iter().any(|e| e.ev.is_terminal()))) =>
       {
         v.push(Violation::new("producer-not-stopped", &blame, format!("pipeline {}: the stream had ended, yet an unbounded producer kept running - {}", pshow, r.res.outcome.describe())));
+      }
+      // amb: unbounded synchronous inputs subscribed after the first input has already won (it
+      // signals inside subscribe: a source behind start_with) must be cancelled at their first
+      // signal - the stream is still open, yet subscribe must return
+      rxsim_rt::Outcome::Livelock { .. } if uses_endless && cause.get("multi").and_then(|x| x.as_str()) == Some("amb") => {
+        let ins = cause.a("ins");
+        let is_endless = |n: &Json| matches!(n.get("new").and_then(|x| x.as_str()), Some("endless_iter") | Some("repeat"));
+        let first_wins_at_subscribe = ins.first().map_or(false, |f| f.get("op").and_then(|x| x.as_str()) == Some("start_with") && f.get("in").map_or(false, |x| x.get("src").is_some()));
+        if first_wins_at_subscribe && ins.len() >= 2 && ins.iter().skip(1).all(|n| is_endless(n)) {
+          v.push(Violation::new("amb-loser-not-cancelled", "amb", format!("pipeline {}: the first input wins inside subscribe, yet an unbounded input subscribed afterwards was never cancelled - {}", pshow, r.res.outcome.describe())));
+        }
       }
       _ => {}
     }
